@@ -266,8 +266,11 @@ func c07RowKey(p c07Prog, r c07Row) string {
 	return strings.Join(parts, "|")
 }
 
+var extraK bool
+
 func c07Parse(p c07Prog, b Batch) ([]c07Row, string) {
 	var out []c07Row
+	extraK = false
 	for _, row := range b {
 		r := c07Row{Vals: map[string]*float64{}}
 		for k, v := range row {
@@ -291,7 +294,7 @@ func c07Parse(p c07Prog, b Batch) ([]c07Row, string) {
 		}
 		if !p.SelectK {
 			if _, has := row["k"]; has {
-				return nil, "unselected column k delivered"
+				extraK = true // reported, but the remaining checks still run (the finding is known)
 			}
 		}
 		for _, i := range p.Items {
@@ -475,10 +478,15 @@ func (c07) Run(u fw.Unit) fw.Result {
 				a.r.Nontrivial++
 			}
 			a.outcome(js(r.Batches))
-			if kind, what := c07Check(p, ds, r.Batches); kind != "" {
+			kind, what := c07Check(p, ds, r.Batches)
+			if extraK {
+				a.fail("C07|unselected-group-column-delivered", sql+" : unselected column k delivered", cs, nil, r.Batches)
+			}
+			if kind != "" {
 				sig := fmt.Sprintf("C07|%s|%s", kind, c07Class(p))
-				if kind == "shape" && what == "unselected column k delivered" {
-					sig = "C07|unselected-group-column-delivered"
+				if (kind == "duplicate-row" || kind == "row-count") && p.Distinct && !p.SelectK && extraK {
+					// consequence of the delivered-but-unselected group column: the rows differ in k
+					sig = "C07|distinct-keeps-rows-differing-only-in-unselected-group-column"
 				}
 				a.fail(sig, sql+" : "+what, cs, nil, r.Batches)
 			}
